@@ -170,6 +170,10 @@ func checkC13(c *Ctx) {
 	borrowRule(c, "C17", "C17.runeerror", "C13.decode")
 	// an unterminated literal is a syntax error wherever it stands: no error of the lexer is dropped on its way up
 	borrowRule(c, "C05", "C05.errdrop", "C13.errors")
+	// a U+FEFF inside a literal is a character like any other: only the first read strips a byte-order mark
+	borrowRule(c, "C17", "C17.bom", "C13.bom")
+	// a literal that spans lines is one token: the statement goes on after its closing quote (line test of C03.linebreak)
+	borrowRule(c, "C03", "C03.linebreak", "C13.linebreak")
 
 	// ---- C13.quotes: tables
 	pe0 := newPE(u, info, nil)
